@@ -102,9 +102,12 @@ func c16Split(c *mc.Ctx, n, mtu int) {
 	}
 	// Opus: one fragment, equal, not aliasing
 	orig := clone(in)
+	// the input is handed over with spare capacity for a second copy behind it (a read buffer
+	// cut to the packet's length): a fragment placed there shares the caller's array
+	in, intact := guard(in)
 	frags := (&codecs.OpusPayloader{}).Payload(uint16(mtu), in)
 	c.Ops(1)
-	c.Check(bytes.Equal(in, orig), "input-modified", "Opus len=%d: input changed", n)
+	c.Check(bytes.Equal(in, orig) && intact(), "input-modified", "Opus len=%d: input (or the spare capacity behind it) changed", n)
 	if n < 0 {
 		c.Check(len(frags) == 0, "opus-nil", "Opus nil input: %d fragments", len(frags))
 	} else {
